@@ -234,6 +234,9 @@ template <class G> struct Exec {
            (vl.data() - a.data()) == std::get<L>(manif::internal::traits<G>::RepSizeIdx);
   }
   template <class A> static bool sub_offsets_ok(const A&, std::false_type, std::false_type) { return true; }
+  static bool copy_ok(const G& a) { const G c(a); return std::memcmp(c.data(), a.data(), sizeof(S) * Rep) == 0 && c.data() != a.data(); }
+  static bool copy_ok(const MG& a) { MG c(a); return c.data() == a.data(); }
+  static bool copy_ok(const CG&) { return true; }   // Map<const> is move-only on the pinned tree
 
   // write through a sub view: rotation part (asSO3) or a bundle element := the one of b.
   // (sources are bound to named views first: assigning from an rvalue Map<const ...> selects the
@@ -340,9 +343,10 @@ template <class G> struct Exec {
       case OP_DATAPTR: {
         // v[0]: the view reads the user's buffer in place; v[1]: internal sub-views sit at the documented offsets
         const void* expect = (op.ka == K_OWN) ? (const void*)st.e[op.a].data() : (const void*)st.ebuf[op.a];
-        out.nv = 2;
+        out.nv = 3;
         out.v[0] = ((const void*)a.data() == expect && (const void*)a.coeffs().data() == expect) ? 1.0 : 0.0;
         out.v[1] = sub_offsets_ok(a, HasAsSO3(), IsBundle()) ? 1.0 : 0.0;
+        out.v[2] = copy_ok(a) ? 1.0 : 0.0;   // a copy of a view is a view of the same buffer; a copy of an object has the same coefficients
       } break;
       case OP_CASTRT: {
         typename G::template LieGroupTemplate<OS> o = a.template cast<OS>();
